@@ -93,6 +93,26 @@ macro_rules! structure_list_harness {
         }
     };
 }
+/// Does the recorded leaf-encoder call `l` encode the specified item? Integers may be encoded through `rlp::uint(v)` or, equivalently,
+/// through `rlp::bytes` of the MINIMAL big-endian form of v (no leading zero byte; the empty string for zero): the two produce the
+/// same bytes, so the specification accepts both and nothing else.
+unsafe fn leaf_matches(l: usize, item: &Item) -> bool {
+    if item.kind == K_UINT && LOG_KIND[l] == K_BYTES {
+        let len = LOG_LEN[l];
+        if len > 32 {
+            return false;
+        }
+        let v = U256::from_be_bytes(item.val);
+        if len == 0 {
+            return v == U256::ZERO;
+        }
+        // head32 keeps the string left-aligned and zero-padded
+        let as_int = U256::from_be_bytes(LOG_VAL[l]) >> (8 * (32 - len) as u32);
+        return LOG_VAL[l][0] != 0 && as_int == v;
+    }
+    LOG_KIND[l] == item.kind && LOG_LEN[l] == item.len && eq32(&LOG_VAL[l], &item.val)
+}
+
 /// Checks the single `rlp::list` call against `items`: the placeholder at list position j identifies the leaf-encoder call that
 /// produced it, and THAT call must have been given the j-th specified field. (The order in which the code happens to evaluate the
 /// leaves is irrelevant; only the order of the list is specified.)
@@ -109,9 +129,7 @@ fn expect_list_encoding(items: &[Item], ty: Option<u8>, out: &[u8]) {
             let p = LIST_FIRST[j] as usize;
             assert!(p >= 1 && p <= LOG_N, "list item is not the output of a leaf encoder");
             let l = p - 1;
-            assert!(LOG_KIND[l] == items[j].kind, "field kind (integer / byte string / access list)");
-            assert!(LOG_LEN[l] == items[j].len, "field length");
-            assert!(eq32(&LOG_VAL[l], &items[j].val), "field value or field order differs");
+            assert!(leaf_matches(l, &items[j]), "a field differs from the specified one (kind, length, value or order)");
             j += 1;
         }
     }
@@ -221,9 +239,7 @@ fn expect_encoding(from: usize, items: &[Item], ty: Option<u8>, out: &[u8]) {
             let p = out[skip + 1 + i] as usize;
             assert!(p >= from + 1 && p <= LOG_N, "list item is not the output of a leaf encoder of this encoding");
             let l = p - 1;
-            assert!(LOG_KIND[l] == items[i].kind, "field kind (integer / byte string / access list)");
-            assert!(LOG_LEN[l] == items[i].len, "field length");
-            assert!(eq32(&LOG_VAL[l], &items[i].val), "field value or field order differs");
+            assert!(leaf_matches(l, &items[i]), "a field differs from the specified one (kind, length, value or order)");
             i += 1;
         }
     }
@@ -255,6 +271,19 @@ fn any_signature(signed: bool) -> (Option<crate::account::Signature>, u8) {
     } else {
         (None, parity)
     }
+}
+/// A signature whose r is symbolic in its top three bytes (so r with one or two leading zero bytes, and r with a small first
+/// byte, occur) and whose s is fixed; both are valid scalars by construction (top byte of r below 0xff).
+fn any_signature_sym_r() -> (crate::account::Signature, u8, [u8; 32]) {
+    let parity: u8 = kani::any();
+    kani::assume(parity < 2);
+    let top: [u8; 3] = kani::any();
+    kani::assume(top[0] < 0xff);
+    let mut r = R;
+    r[0] = top[0];
+    r[1] = top[1];
+    r[2] = top[2];
+    (crate::account::Signature::from_parts(U256::from_be_bytes(r), U256::from_be_bytes(S), parity), parity, r)
 }
 fn to_item(to: &Option<Address>) -> Item {
     match to {
@@ -351,6 +380,37 @@ fn check_eip2930(signed: bool, nal: usize) {
             expect_encoding(0, &items[..n], Some(0x01), &out);
         }
 }
+// signed typed transactions with r symbolic in its leading bytes: r and s are emitted as minimal integers
+fn check_typed_signed_sym_r(kind: u8) {
+    let data: [u8; 3] = kani::any();
+    let (sig, parity, r) = any_signature_sym_r();
+    unsafe { LOG_N = 0; LIST_CALLS = 0; }
+    let tail = [u(U256::new(parity as u128)), u(U256::from_be_bytes(r)), u(U256::from_be_bytes(S))];
+    kani::cover!(r[0] == 0 && r[1] != 0, "r with one leading zero byte");
+    kani::cover!(r[0] == 0 && r[1] == 0 && r[2] != 0, "r with two leading zero bytes");
+    kani::cover!(r[0] >= 0x80, "r with the top bit set");
+    if kind == 1 {
+        let tx = Eip2930Transaction {
+            chain_id: any_u256(), nonce: any_u256(), gas_price: any_u256(), gas: any_u256(), to: any_to(), value: any_u256(),
+            data: data.to_vec(), access_list: AccessList(vec![]),
+        };
+        let out = tx.rlp_encode(Some(sig));
+        let items = [u(tx.chain_id), u(tx.nonce), u(tx.gas_price), u(tx.gas), to_item(&tx.to), u(tx.value), b(&data), al(0),
+                     tail[0], tail[1], tail[2]];
+        expect_list_encoding(&items, Some(0x01), &out);
+    } else {
+        let tx = Eip1559Transaction {
+            chain_id: any_u256(), nonce: any_u256(), max_priority_fee_per_gas: any_u256(), max_fee_per_gas: any_u256(), gas: any_u256(),
+            to: any_to(), value: any_u256(), data: data.to_vec(), access_list: AccessList(vec![]),
+        };
+        let out = tx.rlp_encode(Some(sig));
+        let items = [u(tx.chain_id), u(tx.nonce), u(tx.max_priority_fee_per_gas), u(tx.max_fee_per_gas), u(tx.gas), to_item(&tx.to),
+                     u(tx.value), b(&data), al(0), tail[0], tail[1], tail[2]];
+        expect_list_encoding(&items, Some(0x02), &out);
+    }
+}
+structure_list_harness! { #[kani::unwind(15)] fn c06l_eip2930_signed_sym_r() { check_typed_signed_sym_r(1) } }
+structure_list_harness! { #[kani::unwind(15)] fn c06l_eip1559_signed_sym_r() { check_typed_signed_sym_r(2) } }
 structure_list_harness! { #[kani::unwind(15)] fn c06l_eip2930_unsigned() { check_eip2930(false, 1) } }
 structure_list_harness! { #[kani::unwind(15)] fn c06l_eip2930_signed() { check_eip2930(true, 1) } }
 structure_list_harness! { #[kani::unwind(15)] fn c06l_eip1559_unsigned() { check_eip1559(false, 1) } }
